@@ -40,7 +40,29 @@ propagator(REG, "nucs/propagators/min_geq_propagator.py::compute_domains_min_geq
     ])},
     tags={"P1": ["C05"], "P2": ["C05"]})
 
-propagator(REG, "nucs/propagators/max_eq_propagator.py::compute_domains_max_eq",
+# P5 (exact hull) for max_eq / min_eq: y takes the value yv (the bound under test, pushed into y's range), one variable c carries yv
+# (the variable under test itself when its bound can be the extremum), every other variable sits at its own far bound
+def p5_ext(bound, kind):
+    b = f"domains[k, {bound}]"
+    far, clip = ("MIN", "max") if kind == "max" else ("MAX", "min")
+    cmp_ = ">=" if kind == "max" else "<="
+    yfar = f"domains[n - 1, {far}]"
+    good = f"inbox(W, domains, n) and inbox(W, {OD}, n) and @R(W) and W[k] == {b}"
+    # (a) the bound under test can itself be the extremum: x_k = y = b, the others at their far bound
+    wa = f"arr(j, n, ite(j == n - 1, {b}, ite(j == k, {b}, domains[j, {far}])))"
+    # (b) it cannot: y at its far bound, carried by another variable c
+    wb = f"arr(j, n, ite(j == n - 1, {yfar}, ite(j == k, {b}, ite(j == c, {yfar}, domains[j, {far}]))))"
+    # (c) a bound of y: carried by some variable c
+    wc = f"arr(j, n, ite(j == n - 1, {b}, ite(j == c, {b}, domains[j, {far}])))"
+    lb = bound.lower()
+    return [
+        (f"P5.x_{lb}_self", f"implies({NOT_INC}, forall(k, 0, n - 1, implies({b} {cmp_} {yfar}, let(W, {wa}, {good}))))"),
+        (f"P5.x_{lb}_other", f"implies({NOT_INC}, forall(k, 0, n - 1, implies(not ({b} {cmp_} {yfar}), exists(c, 0, n - 1, c != k and domains[c, MIN] <= {yfar} and {yfar} <= domains[c, MAX] and let(W, {wb}, {good})))))"),
+        (f"P5.y_{lb}", f"implies({NOT_INC}, let(k, n - 1, exists(c, 0, n - 1, domains[c, MIN] <= {b} and {b} <= domains[c, MAX] and let(W, {wc}, {good}))))"),
+    ]
+
+
+propagator(REG, "nucs/propagators/max_eq_propagator.py::compute_domains_max_eq", p5=p5_ext("MIN", "max") + p5_ext("MAX", "max"),
     rel="forall(k, 0, n - 1, @T[k] <= @T[n - 1]) and exists(k, 0, n - 1, @T[k] == @T[n - 1])", n_min=2, entail=False,
     loops={1: dict(index="i", fingerprint="for range(len(x))", invariant=[
         ("P1.min", "forall(k, 0, n - 1, domains[k, MIN] == pre(domains)[k, MIN])"),
@@ -50,10 +72,11 @@ propagator(REG, "nucs/propagators/max_eq_propagator.py::compute_domains_max_eq",
         ("P2.cand0", "candidates_nb >= 0 and implies(candidates_nb == 0, forall(k, 0, i, domains[k, MAX] < domains[n - 1, MIN]))"),
         ("P2.cand1", "implies(candidates_nb >= 1, 0 <= candidate_idx and candidate_idx < i and domains[candidate_idx, MAX] >= domains[n - 1, MIN])"),
         ("P2.cand_unique", "implies(candidates_nb == 1, forall(k, 0, i, implies(k != candidate_idx, domains[k, MAX] < domains[n - 1, MIN])))"),
+        ("P5.cand_second", "implies(candidates_nb >= 2, exists(k, 0, i, k != candidate_idx and domains[k, MAX] >= domains[n - 1, MIN]))"),
     ])},
     tags={"P1": ["C05"], "P2": ["C05"]})
 
-propagator(REG, "nucs/propagators/min_eq_propagator.py::compute_domains_min_eq",
+propagator(REG, "nucs/propagators/min_eq_propagator.py::compute_domains_min_eq", p5=p5_ext("MIN", "min") + p5_ext("MAX", "min"),
     rel="forall(k, 0, n - 1, @T[k] >= @T[n - 1]) and exists(k, 0, n - 1, @T[k] == @T[n - 1])", n_min=2, entail=False,
     loops={1: dict(index="i", fingerprint="for range(len(x))", invariant=[
         ("P1.max", "forall(k, 0, n - 1, domains[k, MAX] == pre(domains)[k, MAX])"),
@@ -63,18 +86,30 @@ propagator(REG, "nucs/propagators/min_eq_propagator.py::compute_domains_min_eq",
         ("P2.cand0", "candidates_nb >= 0 and implies(candidates_nb == 0, forall(k, 0, i, domains[k, MIN] > domains[n - 1, MAX]))"),
         ("P2.cand1", "implies(candidates_nb >= 1, 0 <= candidate_idx and candidate_idx < i and domains[candidate_idx, MIN] <= domains[n - 1, MAX])"),
         ("P2.cand_unique", "implies(candidates_nb == 1, forall(k, 0, i, implies(k != candidate_idx, domains[k, MIN] > domains[n - 1, MAX])))"),
+        ("P5.cand_second", "implies(candidates_nb >= 2, exists(k, 0, i, k != candidate_idx and domains[k, MIN] <= domains[n - 1, MAX]))"),
     ])},
     tags={"P1": ["C05"], "P2": ["C05"]})
 
 propagator(REG, "nucs/propagators/dummy_propagator.py::compute_domains_dummy", rel="True", n_min=0, entail=False)
 
+# P5 (exact hull) for `and`: the witness is the all-ones tuple when the bound under test is 1 and y may be 1; otherwise y = 0, the variable
+# under test at its bound, some OTHER variable c that can be 0 at 0 (c is the variable itself when its bound is 0), the rest at their minimum
+def p5_and(bound):
+    b = f"domains[k, {bound}]"
+    all1 = f"({b} == 1 and domains[n - 1, MAX] == 1)"
+    w = f"arr(j, n, ite({all1}, 1, ite(j == k, {b}, ite(j == n - 1, 0, ite(j == c, 0, domains[j, MIN])))))"
+    cok = f"(({all1}) or (c == k and {b} == 0 and k < n - 1) or (c != k and domains[c, MIN] == 0))"
+    return (f"P5.{bound.lower()}", f"implies({NOT_INC}, forall(k, 0, n, exists(c, 0, n - 1, {cok} and let(W, {w}, inbox(W, domains, n) and inbox(W, {OD}, n) and @R(W) and W[k] == {b}))))")
+
+
 propagator(REG, "nucs/propagators/and_propagator.py::compute_domains_and",
-    rel="iff(forall(k, 0, n - 1, @T[k] == 1), @T[n - 1] == 1)", n_min=2, entail=False,
+    rel="iff(forall(k, 0, n - 1, @T[k] == 1), @T[n - 1] == 1)", n_min=2, entail=False, p5=[p5_and("MIN"), p5_and("MAX")],
     requires=["forall(k, 0, n, 0 <= domains[k, MIN] and domains[k, MAX] <= 1)"],
     loops={1: dict(index="i", fingerprint="for range(len(x))", invariant=[
         ("P1.same", "same_pre(domains)"),
         ("P2.cand0", "candidates_nb >= 0 and implies(candidates_nb == 0, forall(k, 0, i, domains[k, MIN] != 0))"),
         ("P2.cand1", "implies(candidates_nb >= 1, 0 <= candidate_idx and candidate_idx < i and domains[candidate_idx, MIN] == 0)"),
         ("P2.cand_unique", "implies(candidates_nb == 1, forall(k, 0, i, implies(k != candidate_idx, domains[k, MIN] != 0)))"),
+        ("P5.cand_second", "implies(candidates_nb >= 2, exists(k, 0, i, k != candidate_idx and domains[k, MIN] == 0))"),
     ])},
     tags={"P1": ["C05"], "P2": ["C05"]})
